@@ -77,6 +77,39 @@ impl<K: SimKernel<D>, const D: usize> Monitor<K, D> for C01 {
                 }
             }
         }
+        // every input is present, or was legitimately left out: a duplicate under the dedup policy /
+        // the insertion-time duplicate tolerance (then it lies next to a survivor), or skipped as
+        // degenerate (then the statistics, where the constructor returns them, say so)
+        {
+            let present: std::collections::BTreeSet<u128> = post.verts.iter().map(|v| v.uuid).collect();
+            let tol = match opts.dedup.as_str() {
+                "Epsilon" => f64::from_bits(opts.dedup_tol_bits).abs(),
+                _ => 0.0,
+            };
+            let near = tol.max(1e-10) * (1.0 + 1e-9) + 2.0e-8 * diag * D as f64;
+            let unexplained: Vec<&crate::ops::VSpec> = verts
+                .iter()
+                .filter(|i| !present.contains(&i.uuid.0))
+                .filter(|i| {
+                    let c = i.coords();
+                    !post.verts.iter().any(|p| p.coords.iter().zip(&c).all(|(a, b)| (a - b).abs() <= near))
+                })
+                .collect();
+            if !unexplained.is_empty() {
+                ctx.stats.bump("c01.inputs_absent_and_not_near_a_survivor");
+                if let Some((_, _, sg, _)) = &out.cstats
+                    && unexplained.len() > *sg
+                {
+                    let u = unexplained[0];
+                    fail(
+                        ctx,
+                        "input-vertex-vanished",
+                        format!("{tail}|dedup={}|vanished", opts.dedup),
+                        format!("{} input vertices are absent from the result, not within {near:e} of any survivor, and only {sg} were reported as skipped for degeneracy; e.g. {:032x} at {:?}", unexplained.len(), u.uuid.0, u.coords()),
+                    );
+                }
+            }
+        }
         // certified: reference Levels 1-3 at completion strength, convex boundary, exact Delaunay
         let strength = crate::monitors::valid::strength_of(post);
         let rv = refval::validate(post, strength, true);
